@@ -49,8 +49,9 @@ type TapeValue struct {
 }
 
 type PathSample struct {
-	Tape []TapeValue
-	Obs  []ObsValue
+	Tape   []TapeValue
+	Obs    []ObsValue
+	pathNo int
 }
 
 type ObsValue struct {
@@ -111,6 +112,11 @@ type Engine struct {
 	curWhere            string
 	fmtDeps             map[string][]*Term
 	hints               map[*Term][2]uint64
+	jsonNames           map[string]string
+	mergeLoss           bool // the last merge turned concrete lengths into symbolic ones
+	arrSyms             map[string]*ArrSym
+	prefer              []*Term
+	bcryptPairs         map[string]string
 }
 
 var repoRoot string
@@ -136,7 +142,7 @@ func NewEngine(ld *Loaded, cfg Config) (*Engine, error) {
 	e := &Engine{tm: tm, solver: s, prog: ld.prog, ld: ld, cfg: cfg, arrCache: map[arrReadKey]*Term{},
 		fnInfos: map[*ssa.Function]*fnInfo{}, globals: map[*ssa.Global]*Object{}, violSeen: map[string]int{},
 		noMerge: map[*ssa.Function]bool{}, sentinel: map[string]*OpaqueV{}, panicsAreViolations: true,
-		globalOf: map[*Object]*ssa.Global{}, fmtDeps: map[string][]*Term{}, hints: map[*Term][2]uint64{}}
+		globalOf: map[*Object]*ssa.Global{}, fmtDeps: map[string][]*Term{}, hints: map[*Term][2]uint64{}, jsonNames: map[string]string{}, arrSyms: map[string]*ArrSym{}, bcryptPairs: map[string]string{}}
 	if e.cfg.Bounds == nil {
 		e.cfg.Bounds = map[string]int{}
 	}
@@ -193,6 +199,9 @@ func (e *Engine) feasible(st *State, extra *Term) bool {
 	r := e.solver.CheckWith(extra)
 	if d := time.Since(t0); d > 2*time.Second && os.Getenv("VP_SLOW") != "" {
 		fmt.Printf("SLOW feasibility %.1fs %v at %s (term size %d, pc depth %d)\n", d.Seconds(), r, e.curWhere, extra.size, st.pc.depth())
+		if os.Getenv("VP_SLOW") == "2" {
+			fmt.Printf("   cond: %s\n", termStr(extra, 7))
+		}
 	}
 	if r == Unknown {
 		e.rep.Unknowns++
@@ -248,11 +257,14 @@ func (e *Engine) where(instr ssa.Instruction) string {
 // satisfiable, runs fn with the model available.  Model construction in the long-lived solver
 // is proportional to everything ever defined there; a fresh process only sees this path.
 func (e *Engine) withFreshSolver(pc *PC, extra *Term, fn func() error) (SatResult, error) {
-	fs, err := NewSolver(e.cfg.SolverName, e.tm, e.cfg.TimeoutMs, "")
+	fs, err := NewSolver(e.cfg.SolverName, e.tm, 4000, "")
 	if err != nil {
 		return Unknown, err
 	}
 	defer fs.Close()
+	// a push keeps z3 in its incremental core (the one-shot tactic pipeline bit-blasts
+	// everything up front and can take minutes on the same formula)
+	fs.Push()
 	for p := pc; p != nil; p = p.parent {
 		fs.Assert(p.t)
 	}
@@ -263,6 +275,17 @@ func (e *Engine) withFreshSolver(pc *PC, extra *Term, fn func() error) (SatResul
 	e.rep.ModelQueries++
 	if r != Sat {
 		return r, nil
+	}
+	// witness shaping: soft preferences registered by the harness (vpPrefer)
+	if len(e.prefer) > 0 {
+		fs.Push()
+		for _, p := range e.prefer {
+			fs.Assert(p)
+		}
+		if fs.Check() != Sat {
+			fs.Pop()
+			fs.Check()
+		}
 	}
 	saved := e.solver
 	e.solver = fs
@@ -354,11 +377,25 @@ func (e *Engine) obligation(st *State, cond *Term, kind, id string, instr ssa.In
 		key := kind + ":" + id
 		if e.violSeen[key] < e.cfg.MaxViolPerID {
 			var tape []TapeValue
-			_, err := e.withFreshSolver(st.pc, neg, func() error {
-				var err error
+			var err error
+			e.prefer = nil
+			if pv, ok := st.ghost["vp.prefer"].(*TupleV); ok {
+				for _, p := range pv.v {
+					e.prefer = append(e.prefer, p.(*Term))
+				}
+			}
+			if len(e.prefer) > 0 {
+				// witness shaping needs its own context
+				_, err = e.withFreshSolver(st.pc, neg, func() error {
+					var err error
+					tape, err = e.extractTape(st)
+					return err
+				})
+			}
+			if tape == nil {
+				// the long-lived solver is in the satisfying context right now
 				tape, err = e.extractTape(st)
-				return err
-			})
+			}
 			if err != nil || tape == nil {
 				e.note(fmt.Sprintf("model extraction failed: %v", err))
 			} else {
@@ -665,7 +702,7 @@ func (e *Engine) finishPath(st *State) {
 		_, err := e.withFreshSolver(st.pc, nil, func() error {
 			tape, obs, err := e.extractSample(st)
 			if err == nil {
-				e.rep.Samples = append(e.rep.Samples, PathSample{Tape: tape, Obs: obs})
+				e.rep.Samples = append(e.rep.Samples, PathSample{Tape: tape, Obs: obs, pathNo: e.rep.Paths})
 			}
 			return err
 		})
